@@ -404,7 +404,7 @@ def degenerate_bounded_instance():
 
     def make(B):
         return {'model': B.choose('model', ['cacgmm', 'cwmm', 'gmm-full', 'gmm-diagonal', 'gmm-spherical', 'vmfmm', 'cacg', 'vmf', 'watson',
-                                            'cacgmm-opts', 'gcacgmm', 'vmfcacgmm', 'cacgmm-opts', 'gcacgmm', 'vmfcacgmm']),
+                                            'cacgmm-opts', 'gcacgmm', 'vmfcacgmm', 'cacgmm-opts', 'gcacgmm', 'vmfcacgmm', 'cacgmm-mask']),
                 'data': B.choose('data', ['generic', 'zero-frames', 'duplicated', 'collinear', 'few-frames', 'one-hot', 'offset']),
                 'K': B.choose('K', [2, 3]), 'D': B.choose('D', [2, 3, 4]), 'it': B.choose('it', [1, 2, 5]),
                 'wca': B.choose('wca', [(-1,), -2, (-3,), (-3, -1)]), 'seed': B.choose('seed', list(range(500))),
@@ -416,7 +416,7 @@ def degenerate_bounded_instance():
         F = 2
         N = D - 1 if data == 'few-frames' else 12
         N = max(N, 2)
-        cplx = model in ('cacgmm', 'cwmm', 'cacg', 'watson', 'cacgmm-opts', 'gcacgmm', 'vmfcacgmm')
+        cplx = model in ('cacgmm', 'cwmm', 'cacg', 'watson', 'cacgmm-opts', 'gcacgmm', 'vmfcacgmm', 'cacgmm-mask')
         y = rng.normal(size=(F, N, D)) + (1j * rng.normal(size=(F, N, D)) if cplx else 0)
         if data == 'zero-frames':
             y[:, ::3] = 0
@@ -434,7 +434,14 @@ def degenerate_bounded_instance():
         if inp['seed'] % 4 == 0 and (model.startswith('gmm') or model in ('vmfmm', 'cwmm')) and data != 'one-hot':
             # positive class masses that are not normalised over the classes (the saliency-weighted weight update renormalises)
             init = init * rng.uniform(0.5, 2.0, size=(F, 1, init.shape[-1]))
-        if model == 'cacgmm':
+        if model == 'cacgmm-mask':
+            # a source-activity mask (every class active somewhere, at least one class active everywhere)
+            act = rng.rand(F, K, init.shape[-1]) < 0.7
+            act[:, 0, :] = True
+            act[:, :, :K] = True
+            m = CACGMMTrainer().fit(y, initialization=init * act, iterations=max(inp['it'], 2), weight_constant_axis=wca, source_activity_mask=act)
+            res.update(weight=m.weight, lam=m.cacg.covariance_eigenvalues, V=m.cacg.covariance_eigenvectors, K=K)
+        elif model == 'cacgmm':
             m = CACGMMTrainer().fit(y, initialization=init, iterations=inp['it'], weight_constant_axis=wca)
             res.update(weight=m.weight, lam=m.cacg.covariance_eigenvalues, V=m.cacg.covariance_eigenvectors, K=K)
         elif model in ('cacgmm-opts', 'gcacgmm', 'vmfcacgmm'):
